@@ -92,11 +92,22 @@ Definition container_same (keys : list Z) (cin cout : container) : Prop :=
    resources as declared *)
 Definition with_identity (pout pin : pod) : pod :=
   mkPod (p_labels pout) (p_prio pout) (p_status_qos pin) (p_init pin) (p_ctrs pin)
-        (p_overhead pin) (p_ann pin).
+        (p_overhead pin) (p_plres pin) (p_ann pin) (p_oann pin).
 Definition tier_class (cls : string) : bool := seqb cls PriorityBatch || seqb cls PriorityMid.
+
+(* pod-level resources (spec.resources) are not container resources: the webhook leaves them
+   exactly as submitted *)
+Definition plres_same (keys : list Z) (a b : option (reslist * reslist)) : Prop :=
+  match a, b with
+  | None, None => True
+  | Some (r1, l1), Some (r2, l2) =>
+      forall k, In k keys -> rget k r2 = rget k r1 /\ rget k l2 = rget k l1
+  | _, _ => False
+  end.
 
 Definition resources_ok (keys : list Z) (enabled : bool) (pin pout : pod) : Prop :=
   let cls := pclass_with_default (with_identity pout pin) in
+  plres_same keys (p_plres pin) (p_plres pout) /\
   if enabled && tier_class cls then
     Forall2 (container_translated keys cls) (p_init pin) (p_init pout)
     /\ Forall2 (container_translated keys cls) (p_ctrs pin) (p_ctrs pout)
@@ -133,8 +144,17 @@ Definition container_sameb (keys : list Z) (cin cout : container) : bool :=
   forallb (fun k => opt_eqb (rget k (c_req cout)) (rget k (c_req cin))
                     && opt_eqb (rget k (c_lim cout)) (rget k (c_lim cin))) keys.
 
+Definition plres_sameb (keys : list Z) (a b : option (reslist * reslist)) : bool :=
+  match a, b with
+  | None, None => true
+  | Some (r1, l1), Some (r2, l2) =>
+      forallb (fun k => opt_eqb (rget k r2) (rget k r1) && opt_eqb (rget k l2) (rget k l1)) keys
+  | _, _ => false
+  end.
+
 Definition resources_okb (keys : list Z) (enabled : bool) (pin pout : pod) : bool :=
   let cls := pclass_with_default (with_identity pout pin) in
+  plres_sameb keys (p_plres pin) (p_plres pout) &&
   if enabled && tier_class cls then
     forallb2 (container_translatedb keys cls) (p_init pin) (p_init pout)
     && forallb2 (container_translatedb keys cls) (p_ctrs pin) (p_ctrs pout)
@@ -176,3 +196,11 @@ Definition translating (e : env) (ps : list profile) (p : pod) : bool :=
   | [] => false
   | matched => translation_enabled e matched
   end.
+
+(* whether the Create admission of pod p applies a profile that writes the summary annotation
+   itself (spec.annotations or annotationKeysMapping aimed at its key) *)
+Definition writes_summary (pf : profile) : bool :=
+  existsb (fun kv => fst kv =? A_SPEC) (pf_anns pf)
+  || existsb (fun on => snd on =? A_SPEC) (pf_akmap pf).
+Definition touches_summary (e : env) (ps : list profile) (p : pod) : bool :=
+  existsb writes_summary (filter (profile_matches e p) ps).
